@@ -601,6 +601,11 @@ type collCall struct {
 	note string
 }
 
+func init() {
+	generators["C07"] = genCollate
+	generators["C08"] = genCollate
+}
+
 func genCollate(prop string, seed uint64, tier, outDir string, count int) error {
 	r := newRng(seed ^ hashString(prop))
 	if count == 0 {
